@@ -419,7 +419,7 @@ func main() {
 			}
 		}
 	} else {
-		scs = generate(common.NewRng(o.Seed), o.Budget(40, 600), o.Search, o.Thorough())
+		scs = generate(common.NewRng(o.Seed), o.Budget(34, 600), o.Search, o.Thorough())
 	}
 	if err == nil {
 		par := 5
